@@ -152,8 +152,9 @@ PyIndex(len, i) == IF i >= 0 THEN (IF i < len THEN i + 1 ELSE 0)
 Clamp(len, i) == IF i < 0 THEN (IF len + i < 0 THEN 0 ELSE len + i)
                  ELSE (IF i > len THEN len ELSE i)
 
+(* True and 1 (False and 0) are the same dictionary key in Python *)
 DictKeyOf(kv) == CASE kv.t = "str" -> kv.s
-                   [] kv.t = "int" -> "#" \o ToString(kv.n)
+                   [] kv.t \in {"int", "bool"} -> "#" \o ToString(kv.n)
                    [] OTHER -> "?"
 
 ---------------------------------------------------------------------------
@@ -265,7 +266,7 @@ EvalSub(v, ix, env) ==
             ELSE IF PyIndex(Len(cv.e), iv.n) = 0 THEN Err("IndexError")
             ELSE cv.e[PyIndex(Len(cv.e), iv.n)]
         ELSE IF cv.t = "dict" THEN
-            IF iv.t \notin {"str", "int"} THEN Unm("dict-key")
+            IF iv.t \notin {"str", "int", "bool"} THEN Unm("dict-key")
             ELSE IF IndexOf(cv.ks, DictKeyOf(iv)) = 0 THEN Err("KeyError")
             ELSE cv.e[IndexOf(cv.ks, DictKeyOf(iv))]
         ELSE IF cv.t = "obj" THEN Err("TypeError-subscript")
@@ -513,13 +514,14 @@ Eval(t, env) ==
                kvs == [i \in 1..n |-> Eval(t.a[2 * i - 1], env)]
                vs == [i \in 1..n |-> Eval(t.a[2 * i], env)]
            IN IF AnyBad(kvs \o vs) THEN FirstBad(kvs \o vs)
-              ELSE IF \E i \in 1..n : kvs[i].t \notin {"str", "int"} THEN Unm("dict-key")
+              ELSE IF \E i \in 1..n : kvs[i].t \notin {"str", "int", "bool"} THEN Unm("dict-key")
               ELSE \* a key written more than once keeps its first position and takes its last value (Python)
-                   LET firsts == {i \in 1..n : \A j \in 1..(i - 1) : kvs[j] # kvs[i]}
+                   LET same(i, j) == DictKeyOf(kvs[i]) = DictKeyOf(kvs[j])
+                       firsts == {i \in 1..n : \A j \in 1..(i - 1) : ~same(j, i)}
                        RECURSIVE Asc(_)
                        Asc(i) == IF i > n THEN <<>> ELSE (IF i \in firsts THEN <<i>> ELSE <<>>) \o Asc(i + 1)
                        ord == Asc(1)
-                       lastOf(i) == CHOOSE j \in 1..n : kvs[j] = kvs[i] /\ \A m \in (j + 1)..n : kvs[m] # kvs[i]
+                       lastOf(i) == CHOOSE j \in 1..n : same(j, i) /\ \A m \in (j + 1)..n : ~same(m, i)
                    IN VDict([q \in 1..Len(ord) |-> DictKeyOf(kvs[ord[q]])], [q \in 1..Len(ord) |-> vs[lastOf(ord[q])]])
       [] t.k = "sub"   -> EvalSub(t.a[1], t.a[2], env)
       [] t.k = "comp"  ->
